@@ -126,15 +126,19 @@ class Sample:
                 self._dump_alignments(f"{debug}.{gene.name}", norm, muts)
 
         assert self.profile, "profile not set"
-        if self.profile.cn_region:
-            self.coverage._normalize_coverage()
-        log.debug("[sam] avg_coverage= {:.1f}x", self.coverage.average_coverage())
-        if self.profile.cn_region and self.coverage.diploid_avg_coverage() < 2:
-            raise AldyException(
-                "The average coverage of the sample is too low ({:.1f}).".format(
-                    self.coverage.diploid_avg_coverage()
+        try:
+            if self.profile.cn_region:
+                self.coverage._normalize_coverage()
+            log.debug("[sam] avg_coverage= {:.1f}x", self.coverage.average_coverage())
+            if self.profile.cn_region and self.coverage.diploid_avg_coverage() < 2:
+                raise AldyException(
+                    "The average coverage of the sample is too low ({:.1f}).".format(
+                        self.coverage.diploid_avg_coverage()
+                    )
                 )
-            )
+        except AldyException as ex:
+            ex.sample_name = self.name  # (a refused sample has a name by now)
+            raise
 
     def _load_sam(self, sam_path: str, reference=None, debug=None):
         """
